@@ -123,6 +123,8 @@ class SimE(Simulator):
             always = ["block", "threshold", "wait", "base"]
         feats = gen.pick_features(rng, always=always, never=["pause", "hold"] if rng.random() < 0.7 else [])
         method = gen.gen_method(rng, feats, max_lines=rng.randint(3, 25), time_scale=0.5)
+        if rng.random() < 0.15:
+            method = gen.gen_scenario(rng)
         ops: list[list] = [["user", "Start"]]
         if rng.random() < 0.4:
             ops.append(["volrate", rng.choice([0.05, 0.2, 0.5])])
@@ -470,6 +472,9 @@ class SimE(Simulator):
                 w.quiescent = w.method_end_reached and not w.uod.command_instances
                 fp.append("settle")
             elif k == "end_stop":
+                from .oracles_exec import live_records
+                w.final_records = live_records(w)
+                w.final_method_state = w.method_state()
                 if w.state not in ("Stopped", "Restarting"):
                     w.user_command("Stop")
                 for _ in range(4):
